@@ -32,16 +32,54 @@ def netconan_modules():
 
 
 def _mutable_globals():
-    """(module name, attr, object) for every mutable container at netconan module level."""
+    """(owner name, attr, object) for every mutable container reachable as a netconan module
+    global, as an attribute of a class defined there, or as a default argument of a function or
+    method defined there (state that outlives a request can hide in all three)."""
     seen = {}
+
+    def add(owner, name, v):
+        if isinstance(v, (set, dict, list)) and id(v) not in seen:
+            seen[id(v)] = (owner, name, v)
+
+    def add_func(owner, fn):
+        for i, d in enumerate(getattr(fn, "__defaults__", None) or ()):
+            add(owner, "%s.__defaults__[%d]" % (getattr(fn, "__name__", "?"), i), d)
+        for k, d in (getattr(fn, "__kwdefaults__", None) or {}).items():
+            add(owner, "%s.__kwdefaults__[%s]" % (getattr(fn, "__name__", "?"), k), d)
+
     for m in netconan_modules():
         for k, v in list(vars(m).items()):
             if k.startswith("__"):
                 continue
-            if isinstance(v, (set, dict, list)) and not isinstance(v, type):
-                if id(v) not in seen:
-                    seen[id(v)] = (m.__name__, k, v)
+            add(m.__name__, k, v)
+            if isinstance(v, types.FunctionType) and v.__module__ == m.__name__:
+                add_func(m.__name__, v)
+            if isinstance(v, type) and v.__module__ == m.__name__:
+                for ck, cv in list(vars(v).items()):
+                    if ck.startswith("__") and ck != "__init__":
+                        continue
+                    add(m.__name__ + "." + v.__name__, ck, cv)
+                    f = cv.__func__ if isinstance(cv, (classmethod, staticmethod)) else cv
+                    if isinstance(f, types.FunctionType):
+                        add_func(m.__name__ + "." + v.__name__, f)
     return list(seen.values())
+
+
+def capture_state():
+    """Deep copy of every such container, to be re-imposed with apply_state()."""
+    return [(owner, attr, obj, copy.deepcopy(obj)) for owner, attr, obj in _mutable_globals()]
+
+
+def apply_state(state):
+    for owner, attr, obj, saved in state:
+        if isinstance(obj, set):
+            obj.clear()
+            obj.update(saved)
+        elif isinstance(obj, dict):
+            obj.clear()
+            obj.update(copy.deepcopy(saved))
+        elif isinstance(obj, list):
+            obj[:] = copy.deepcopy(saved)
 
 
 def snapshot_globals():
